@@ -1,0 +1,88 @@
+//go:build verif
+
+package badger
+
+import (
+	"context"
+	"sync"
+
+	"github.com/dgraph-io/ristretto/v2/z"
+)
+
+// Test-driver entry points for the /verif correspondence harness (engines "stream",
+// "backup", "swriter"). They only call production code.
+
+// VerifRanges is DB.Ranges: the key ranges produceRanges hands out (left, right; nil = open).
+func VerifRanges(db *DB, prefix []byte, numRanges int) [][2][]byte {
+	var out [][2][]byte
+	for _, r := range db.Ranges(prefix, numRanges) {
+		out = append(out, [2][]byte{r.left, r.right})
+	}
+	return out
+}
+
+// VerifItemReadTs is the read timestamp of the transaction an item was read by.
+func VerifItemReadTs(item *Item) uint64 { return item.txn.readTs }
+
+// VerifStreamStepped runs the goroutines of Stream.Orchestrate (produceKVs, streamKVs —
+// production code, unchanged) under ONE explicit schedule instead of leaving their start
+// order to the Go scheduler: producer i is started and handed ranges[i] (rangeCh is unbuffered
+// here, so the send returns once producer i — the only idle one — has created its
+// transaction and taken the range); the consumer is started only after the last range has
+// been handed out (kvChan is unbuffered here, so a producer that finished its range waits and
+// cannot take another one). `mid` is called just before producer `pre` is started (after the
+// last one when pre >= len(ranges)). Every
+// interleaving this produces is one the production Orchestrate admits (goroutine `pre`
+// scheduled late); the channel capacities only affect buffering.
+func VerifStreamStepped(st *Stream, ranges [][2][]byte, pre int, mid func()) error {
+	ctx, cancel := context.WithCancel(context.Background())
+	defer cancel()
+	st.rangeCh = make(chan keyRange)
+	st.kvChan = make(chan *z.Buffer)
+	if st.KeyToList == nil {
+		st.KeyToList = st.ToList
+	}
+	errCh := make(chan error, len(ranges)+1)
+	var wg sync.WaitGroup
+	for i := range ranges {
+		if i == pre && mid != nil {
+			mid()
+		}
+		wg.Add(1)
+		go func(threadId int) {
+			defer wg.Done()
+			if err := st.produceKVs(ctx, threadId); err != nil {
+				select {
+				case errCh <- err:
+				default:
+				}
+			}
+		}(i)
+		st.rangeCh <- keyRange{left: ranges[i][0], right: ranges[i][1]}
+	}
+	if pre >= len(ranges) && mid != nil {
+		mid() // every producer has its transaction: the commit is concurrent with the run
+	}
+	close(st.rangeCh)
+	kvErr := make(chan error, 1)
+	go func() {
+		err := st.streamKVs(ctx)
+		if err != nil {
+			cancel()
+		}
+		kvErr <- err
+	}()
+	wg.Wait()
+	close(st.kvChan)
+	defer func() {
+		for buf := range st.kvChan {
+			_ = buf.Release()
+		}
+	}()
+	select {
+	case err := <-errCh:
+		return err
+	default:
+	}
+	return <-kvErr
+}
